@@ -202,4 +202,4 @@ def run(ctx) -> None:
     nsh = 32
     ctx.exhaustive("all-alias-subsets", MOD, "exh_shard", [(i, nsh) for i in range(nsh)],
                    f"trees {EX_TREE} and {EX_TREE2}: all alias maps x spacing present/absent, + repeated calls on one architecture")
-    ctx.random("random-trees-and-alias-maps", MOD, "strategy", "check_case", 4000 if ctx.tier == "quick" else 80000)
+    ctx.random("random-trees-and-alias-maps", MOD, "strategy", "check_case", 8000 if ctx.tier == "quick" else 120000)
